@@ -216,6 +216,110 @@ def _shard_a(shard, seed, tier):
     return part
 
 
+def _shard_logvariants(shard, seed, tier):
+    """The same oracle under the other log methods the configuration offers: `file` (standard output a strict
+    UTF-8 text stream, as when redirected) and `syslog` (an argument checker as strict as the real call), for
+    selectors with bytes that are not UTF-8, unknown ones and known ones."""
+    from . import c12
+
+    part = core.Partial()
+    method, handlers = shard
+    paths = [b"/caf\xe9.txt", b"/\xff\xfe", b"/a/\xe9", b"/f.txt", b"/nope", b"/a", b"/nope\xe9/x", b"/m.mbox|/MBOX-MESSAGE/\xe9", b"URL:http://h/\xe9", b"/\xe9?q\xe9", b"/z.zip/\xe9"]
+    try:
+        (c12._use_filelog if method == "file" else c12._use_syslog)(True)
+        for p in paths:
+            for w in alphabet.WRAPPERS:
+                for enc in ("std", "raw"):
+                    rq = alphabet.wrap(w, p, enc)
+                    if rq is None:
+                        continue
+                    r, bad = _case_a(handlers, rq[0], rq[1], p)
+                    part.evaluations += 1
+                    part.transitions += 1
+                    part.state("log", method, handlers, rq[0], rq[1])
+                    part.outcome("log", method, r.proto, bad[0] if bad else "")
+                    if bad:
+                        part.violation("a|log=%s|%s|%s|tls=%d|%s" % (method, handlers, ascii(rq[0][:200]), rq[1], bad[0]), bad[1], {"part": "log", "method": method, "handlers": handlers, "data": rq[0], "tls": rq[1], "sel": p})
+    finally:
+        c12._use_filelog(False)
+        c12._use_syslog(False)
+        for w in _world.values():
+            w.destroy()
+        _world.clear()
+    return part
+
+
+# ---------------------------------------------------------------------------
+# (c) the same requests against the server as it is really deployed
+# ---------------------------------------------------------------------------
+
+DEPLOY_BASE = {"servertype": "ThreadingTCPServer", "tls": True}
+DEPLOY_MODES = {
+    "fork": {"tls": True}, "chroot+fork": {"chroot": True, "tls": True}, "chroot+thread": {"chroot": True, "tls": True, "servertype": "ThreadingTCPServer"},
+    "relative-root": {"relroot": True, "tls": True}, "C-locale": {"tls": True, "env": {"LC_ALL": "C", "LANG": "C", "PYTHONUTF8": "0"}},
+    "drop": {"drop": True, "tls": True}, "chroot+drop": {"chroot": True, "drop": True, "tls": True}, "cache-on": {"tls": True, "cachetime": 180},
+}
+DEPLOY_PROTOS = ("gopher", "gopherp", "gopherp_dir", "http", "wap", "spartan", "gemini", "sgopher", "https")
+DEPLOY_SELS = (b"/", b"/a", b"/f.txt", b"/m.mbox", b"/m.mbox|/MBOX-MESSAGE/1", b"/md", b"/md|/MAILDIR-MESSAGE/1", b"/gm", b"/h.html", b"/t.html.tal", b"/z.zip", b"/z.zip/sub/g.txt",
+               b"/nope", b"/../x", b"/caf\xe9", b"URL:http://x/", b"/enc.mbox", b"/x.gophermap", b"/a/deep/d.txt", b"/noext", b"/empty.txt", b"/p.pyg",
+               # these need programs from outside the document root: not asked of a jailed server
+               b"/c.txt.gz", b"/s.sh")
+NEEDS_OUTSIDE = (b"/c.txt.gz", b"/s.sh")
+
+
+def _shard_deploy(shard, seed, tier):
+    """A real `bin/pygopherd <conf>` process per deployment mode, real sockets and TLS.  Every request of a
+    menu must be answered exactly as the plainest deployment answers it (port numbers and dates aside)."""
+    from .. import deploy
+
+    part = core.Partial()
+    mname = shard
+    mode = DEPLOY_MODES[mname]
+    spec = _spec_a()
+    base = deploy.Server(spec, DEPLOY_BASE, tag="c03d")
+    srv = deploy.Server(spec, mode, tag="c03d")
+    try:
+        if not base.started or not srv.started:
+            which = "reference" if not base.started else mname
+            part.violation("c|%s|start" % mname, "the %s deployment did not come up: %r" % (which, (base if not base.started else srv).log()[-600:]), {"part": "deploy", "mode": mname})
+            return part
+        for sel in DEPLOY_SELS:
+            if mode.get("chroot") and sel in NEEDS_OUTSIDE:
+                continue
+            for proto in DEPLOY_PROTOS:
+                data, tls = rig.request(proto, sel)
+                a, ea = base.fetch(data, tls)
+                mark = len(srv.log())
+                b, eb = srv.fetch(data, tls)
+                na, nb = deploy.normalise(a, base.port), deploy.normalise(b, srv.port)
+                part.evaluations += 2
+                part.transitions += 2
+                part.state("deploy", mname, proto, sel)
+                verdict = ""
+                if ea is not None:
+                    raise core.HarnessError("reference deployment failed on %r via %s: %s" % (sel, proto, ea))
+                if eb is not None or na != nb:
+                    verdict = "differs"
+                    newlog = srv.log()[mark:]
+                    if mode.get("drop") and not mode.get("chroot") and re.search(rb"(LookupError: unknown encoding|ModuleNotFoundError|ImportError|PermissionError: \[Errno 13\][^\n]*(\.pyenv|site-packages|/lib/python))", newlog):
+                        # this sandbox keeps its Python under /root, unreadable for `nobody`: a module or codec that is
+                        # imported on first use cannot be imported after the drop.  Says nothing about pygopherd.
+                        verdict = "inconclusive"
+                        part.count("deploy_inconclusive_interpreter_unreadable")
+                part.outcome("deploy", mname, proto, verdict)
+                if verdict == "differs":
+                    i = next((j for j in range(min(len(na), len(nb))) if na[j] != nb[j]), min(len(na), len(nb)))
+                    part.violation("c|%s|%s|%s" % (mname, proto, ascii(sel)), "deployment %s answers %r via %s with %r (%d bytes%s); the plain deployment answers %r (%d bytes); first difference at byte %d; server log: %r" % (
+                        mname, sel, proto, nb[max(0, i - 20):i + 60], len(nb), ", " + eb if eb else "", na[max(0, i - 20):i + 60], len(na), i, srv.log()[mark:][-300:]),
+                        {"part": "deploy", "mode": mname, "proto": proto, "sel": sel})
+        if not srv.alive():
+            part.violation("c|%s|died" % mname, "the server process ended while being asked ordinary questions: %r" % srv.log()[-400:], {"part": "deploy", "mode": mname})
+    finally:
+        base.stop()
+        srv.stop()
+    return part
+
+
 # ---------------------------------------------------------------------------
 # (b) histories
 # ---------------------------------------------------------------------------
@@ -320,6 +424,25 @@ def _shard_b(shard, seed, tier):
 
 
 def replay(case):
+    if case["part"] == "deploy":
+        p = _shard_deploy(case["mode"], 0, "quick")
+        for k, det, c in p.violations:
+            if c.get("proto") == case.get("proto") and c.get("sel") == case.get("sel"):
+                return ("differs", det)
+        return None
+    if case["part"] == "log":
+        from . import c12
+
+        try:
+            (c12._use_filelog if case["method"] == "file" else c12._use_syslog)(True)
+            r, bad = _case_a(case["handlers"], case["data"], case["tls"], case.get("sel"))
+        finally:
+            c12._use_filelog(False)
+            c12._use_syslog(False)
+            for w in _world.values():
+                w.destroy()
+            _world.clear()
+        return (bad[0], bad[1]) if bad else None
     if case["part"] == "a":
         try:
             r, bad = _case_a(case["handlers"], case["data"], case["tls"], case.get("sel"))
@@ -347,6 +470,8 @@ def run(ck):
     for handlers in ("full", "default"):
         for ch in core.chunks(order, core.NPROC * 2):
             shards.append((handlers, ch))
+    ck.pmap(_shard_deploy, sorted(DEPLOY_MODES))
+    ck.pmap(_shard_logvariants, [(m, h) for m in ("file", "syslog") for h in ("full", "default")])
     pa = ck.pmap(_shard_a, shards)
     if pa.extra.get("capped"):
         ck.caps.append("%d shard(s) aborted early after repeated request timeouts" % len(pa.extra["capped"]))
